@@ -335,6 +335,9 @@ class DefinitionsMapper:
 
             inner.attrs.extend(attrs)
 
+        # The soap header always precedes the body, however the binding lists them
+        target.attrs.sort(key=lambda attr: attr.name != "Header")
+
         return target
 
     @classmethod
